@@ -2,6 +2,7 @@ import Octo.Lemmas.TyTypeOf
 import Octo.Lemmas.TyNonNull
 import Octo.Lemmas.TyInter
 import Octo.Lemmas.TyRecFree
+import Octo.Gen.C10Consts
 /-!
 # C10 — Type algebra laws hold
 
@@ -30,6 +31,27 @@ Hypotheses that appear below:
 -/
 namespace Octo.C10
 open Octo Octo.Ty
+
+/-! ## Tie to the regenerated constants of `octosql/types.go` -/
+
+/-- the name of the `TypeID` constant of each model constructor -/
+def idName : Ty → String
+  | .null => "TypeIDNull" | .int => "TypeIDInt" | .float => "TypeIDFloat" | .bool => "TypeIDBoolean"
+  | .str => "TypeIDString" | .time => "TypeIDTime" | .dur => "TypeIDDuration" | .listNil => "TypeIDList"
+  | .list _ => "TypeIDList" | .struct _ _ => "TypeIDStruct" | .tuple _ => "TypeIDTuple" | .union _ => "TypeIDUnion"
+  | .any => "TypeIDAny"
+
+/-- `Ty.id` (the sort key of union alternatives) is the position of the constructor's `TypeID` constant in the
+    const block **as it stands in /repo now** (`Octo.Gen.C10.typeIds` is rewritten by `vh extract` on every run) -/
+theorem typeIds_tie (t : Ty) : Gen.C10.typeIds[t.id]? = some (idName t) := by
+  cases t <;> rfl
+
+/-- `Rel.toNat` is the iota value of the corresponding `TypeRelation` constant -/
+theorem typeRelations_tie :
+    Gen.C10.typeRelations[Rel.isnt.toNat]? = some "TypeRelationIsnt" ∧
+    Gen.C10.typeRelations[Rel.maybe.toNat]? = some "TypeRelationMaybe" ∧
+    Gen.C10.typeRelations[Rel.is.toNat]? = some "TypeRelationIs" ∧ Gen.C10.typeRelations.length = 3 := by
+  decide
 
 /-! ## `Is` -/
 
